@@ -514,6 +514,10 @@ HISTORIES = {
     "replace": [("mkfile", "a"), ("mkfile", "b"), ("mv", "a", "b"), ("rm", "b")],
     "between-dirs": [("mkdir", "d"), ("mkfile", "d/a"), ("mv", "d/a", "a"), ("mvout", "a", "z"), ("rmdir", "d")],
     "root-removed": [("mkfile", "a"), ("rm", "a"), ("rmroot",)],
+    # a directory leaves the tree and is used at its new place: neither watch may report anything from there (the
+    # recursive watch always asks for both halves of a move for its own bookkeeping, whatever the filter)
+    "after-move-out": [("mkdir", "d"), ("mkfile", "d/x"), ("mkdir", "d/s"), ("mvout", "d", "d"), ("write", "o:d/x"),
+                       ("mkfile", "o:d/s/g"), ("read", "o:d/x"), ("mkfile", "top"), ("write", "top")],
 }
 OPS_IN = ["mkfile", "write", "chmod", "read", "rm", "mkdir", "rmdir", "mv", "mvout", "mvin"]
 
